@@ -412,6 +412,12 @@ def scenario(name):
             lambda v: base_init(v, cfg_exists=True)
     if name == "fai-two-fresh":
         return [(1, g(1), o(1), False, "fai"), (2, g(1), o(2), False, "fai")], lambda v: base_init(v, cfg_exists=True)
+    if name == "fai-stale-two":
+        # the index next to the reference is older than the reference (the file was copied or downloaded again after indexing)
+        def init(v):
+            base_init(v, cfg_exists=True)
+            v.add(V + "data/ref1.fa.fai", "fai-of:an-older-copy;end", mtime=2.0)
+        return [(1, g(1), o(1), False, "fai"), (2, g(1), o(2), False, "fai")], init
     if name == "fai-three-fresh":
         return [(1, g(1), o(1), False, "fai"), (2, g(2), o(2), False, "fai"), (3, g(2), o(3), False, "fai")], lambda v: base_init(v, cfg_exists=True)
     if name == "index-two-fresh":
@@ -711,6 +717,7 @@ def run(ctx):
     jobs.append(("index-two-fresh", 2 if quick else 3, 60000 if quick else 400000))
     jobs.append(("fai-two-fresh", 2 if quick else 3, 60000 if quick else 400000))
     jobs.append(("fai-three-fresh", 1 if quick else 2, 60000 if quick else 400000))
+    jobs.append(("fai-stale-two", 2 if quick else 3, 60000 if quick else 400000))
     jobs.append(("clean-start-rerun-vs-cached-alignment", 3 if quick else 4, 60000 if quick else 400000))
     jobs.append(("alignment-two-fresh", 2 if quick else 3, 60000 if quick else 400000))
     jobs.append(("alignment-other-options", 1 if quick else 2, 60000 if quick else 400000))
